@@ -440,7 +440,7 @@ def correspondence(ctx):
     import time
     t_start = time.time()
     r = ctx.rng
-    nfiles = ctx.budget(3, 40) * (3 if ctx.brokens else 1)
+    nfiles = ctx.budget(2, 40) * (3 if ctx.brokens else 1)
     edits_per_file = ctx.budget(400, 100000)
     exprs, descr, defs = [], [], []
     with toycipher.registered():
@@ -518,7 +518,7 @@ def search(ctx):
     real_plugin()
     r = ctx.rng
     boost = 4 if ctx.brokens else 1
-    nfiles = ctx.budget(4, 110) * boost
+    nfiles = ctx.budget(2, 110) * boost
     nbec2 = ctx.budget(1, 30) * boost
     files = gen_files(ctx, nfiles)
     errs = ctx.dist
@@ -552,6 +552,8 @@ def search(ctx):
     # BEC2: signature + customer-key auth block + the same body at offset len(header)
     ef = enc_tag_files(r)
     bfiles = boundary_files(r)[1:4] + [dup_files(r)[0], dup_files(r)[3], ef[0], ef[3]] + [random_file(r) for _ in range(nbec2)]
+    if ctx.quick() and not ctx.brokens:
+        bfiles = [bfiles[0], bfiles[3], bfiles[5], bfiles[6]]
     for i, (cm, comps) in enumerate(bfiles):
         key = bytes(r.randrange(256) for _ in range(15)) + bytes([r.choice([0, 1, 255])])
         with_ck = bool(i % 2)
